@@ -21,6 +21,12 @@ bool gh_ev_disconnected_resumable;
 unsigned gh_ev_connected;      /* `connected` signal emissions ("session established" reports) */
 bool gh_ev_connected_smEnabled, gh_ev_connected_smResumed, gh_ev_connected_bind2Used, gh_ev_connected_fastTokenChanged; int gh_ev_connected_authenticationMethod;
 
+/* negotiation steps (units/C10/steps.h): a step (authenticate / resume / bind / enable stream management) is PENDING from the moment
+   its request is sent and its continuation registered until that continuation runs */
+bool gh_step_pending;          /* a step has been started and its continuation has not run yet */
+unsigned gh_steps;             /* steps started (continuations registered / contract-only starters called) */
+int gh_cont_last;              /* which continuation the last QXmppTask::then registered (CONT_<function>_<n>) */
+
 /* the managers have been told about every session end / begin that has been announced so far (consistency of the ghost log;
    required on entry so that "managers first, then the signal" can be checked at the emission site) */
 #define LOG_SYNC_CLOSE (gh_iq_closed == gh_ev_disconnected && gh_ack_closed == gh_ev_disconnected)
